@@ -31,7 +31,7 @@ PROPS = {
                       (["join", "try_join", "merge", "zip", "race", "race_ok", "chain"], "big", 0.05), (GROUPS, "big", 0.08),
                       (["join", "try_join", "merge", "zip"], "waves", 0.08)],
                 assumptions=COMMON_ASSUME),
-    "C02": dict(ktie=["JoinV", "JoinA", "JoinVD", "JoinAD"], monitor="C02", proj="C02", modules=["C02a", "C02b", "C02g", "C02nest", "C02co"], ps=True, cfgs=ALL3 + ["std-co", "alloc-co"], quick=900, thorough=12000,
+    "C02": dict(ktie=["JoinV", "JoinA", "JoinVD", "JoinAD", "JoinT"], monitor="C02", proj="C02", modules=["C02a", "C02b", "C02g", "C02nest", "C02co"], ps=True, cfgs=ALL3 + ["std-co", "alloc-co"], quick=900, thorough=12000,
                 gens=[(["co"], "random", 1.5), (["co"], "errs", 0.7), (["co"], "stuck", 0.5), (GROUPS, "exh", 0.3), (["join", "try_join", "race", "race_ok", "merge", "zip", "chain"], "exh", 0.4), (ALL_FIXED, "random", 1.0), (GROUPS, "random", 0.4), (ALL_FIXED + GROUPS, "panic", 0.5),
                       (["join", "try_join", "race_ok", "zip"], "big", 0.05)],
                 assumptions=COMMON_ASSUME + ["memory effects of unsafe code are outside the model; the model "
@@ -49,11 +49,11 @@ PROPS = {
                       # wide containers (more children than any per-poll budget / bit block), nobody ready on the first poll
                       (CONC, "big", 0.1), (GROUPS, "big", 0.15)],
                 assumptions=COMMON_ASSUME),
-    "C04": dict(ktie=["PS", "JoinV", "JoinA", "JoinVD", "JoinAD"], monitors=["C04", "NP", "LV"], monitor="C04", modules=["C04", "C04state", "C01"], proj="FUN", ps=True, cfgs=ALL3, quick=1500, thorough=20000,
+    "C04": dict(ktie=["PS", "JoinV", "JoinA", "JoinVD", "JoinAD", "JoinT"], monitors=["C04", "NP", "LV"], monitor="C04", modules=["C04", "C04state", "C01"], proj="FUN", ps=True, cfgs=ALL3, quick=1500, thorough=20000,
                 gens=[(["join"], "mt", 0.3), (["join"], "drain", 0.5), (["join"], "exh", 1.0), (["join"], "random", 1.0), (["join"], "stuck", 0.3), (["join"], "panic", 0.2),
                       (["join"], "big", 0.08), (["join"], "waves", 0.25)],
                 assumptions=COMMON_ASSUME),
-    "C05": dict(ktie=["TryJoinV", "TryJoinA", "TryJoinVD", "TryJoinAD"], monitors=["C05", "C02", "NP", "LV"], monitor="C05", proj="FUN+C02", modules=["C05", "C04state", "C02a", "C01"], ps=True, cfgs=ALL3, quick=1500, thorough=20000,
+    "C05": dict(ktie=["TryJoinV", "TryJoinA", "TryJoinVD", "TryJoinAD", "TryJoinT"], monitors=["C05", "C02", "NP", "LV"], monitor="C05", proj="FUN+C02", modules=["C05", "C04state", "C02a", "C01"], ps=True, cfgs=ALL3, quick=1500, thorough=20000,
                 gens=[(["try_join"], "mt", 0.3), (["try_join"], "drain", 0.5), (["try_join"], "exh", 1.0), (["try_join"], "random", 1.0), (["try_join"], "errs", 0.6), (["try_join"], "stuck", 0.2),
                       (["try_join"], "panic", 0.2), (["try_join"], "big", 0.08), (["try_join"], "waves", 0.2)],
                 assumptions=COMMON_ASSUME),
@@ -62,7 +62,7 @@ PROPS = {
                       (["race"], "big", 0.2)],
                 assumptions=COMMON_ASSUME + ["racing zero futures is outside C06 (the real code divides by zero in "
                                              "Indexer::iter); the generator uses n >= 1"]),
-    "C07": dict(ktie=["RaceOkA"], monitors=["C07", "NP", "LV"], monitor="C07", modules=["C07", "C01"], proj="FUN", cfgs=ALL3, quick=1500, thorough=20000,
+    "C07": dict(ktie=["RaceOkA", "RaceOkV"], monitors=["C07", "NP", "LV"], monitor="C07", modules=["C07", "C01"], proj="FUN", cfgs=ALL3, quick=1500, thorough=20000,
                 gens=[(["race_ok"], "drain", 0.5), (["race_ok"], "exh", 1.0), (["race_ok"], "random", 1.0), (["race_ok"], "errs", 0.8), (["race_ok"], "stuck", 0.2),
                       (["race_ok"], "panic", 0.2), (["race_ok"], "big", 0.08), (["race_ok"], "waves", 0.2)],
                 assumptions=COMMON_ASSUME),
@@ -71,11 +71,11 @@ PROPS = {
                       (["wait_f", "wait_s"], "panic", 0.2)],
                 assumptions=COMMON_ASSUME + ["child scripts have the kind of their child (Case.kindOk): a future only "
                                              "resolves, a stream only yields/ends - enforced by Rust's types"]),
-    "C08": dict(ktie=["Idx", "MergeV", "MergeA", "MergeVD", "MergeAD"], monitors=["C08", "NP", "LV"], monitor="C08", modules=["C08", "C01"], proj="FUN", cfgs=ALL3, quick=2500, thorough=30000,
+    "C08": dict(ktie=["Idx", "MergeV", "MergeA", "MergeVD", "MergeAD", "MergeT"], monitors=["C08", "NP", "LV"], monitor="C08", modules=["C08", "C01"], proj="FUN", cfgs=ALL3, quick=2500, thorough=30000,
                 gens=[(["merge"], "mt", 0.3), (["merge"], "drain", 0.5), (["merge"], "exh", 1.0), (["merge"], "random", 1.0), (["merge"], "fair", 0.4), (["merge"], "stuck", 0.2),
                       (["merge"], "panic", 0.2), (["merge"], "big", 0.08), (["merge"], "waves", 0.1)],
                 assumptions=COMMON_ASSUME),
-    "C09": dict(ktie=["ZipV", "ZipA", "ZipVD", "ZipAD"], monitors=["C09", "C02", "NP", "LV"], monitor="C09", proj="FUN+C02", modules=["C09", "C02a", "C01"], cfgs=ALL3, quick=2500, thorough=30000,
+    "C09": dict(ktie=["ZipV", "ZipA", "ZipVD", "ZipAD", "ZipT"], monitors=["C09", "C02", "NP", "LV"], monitor="C09", proj="FUN+C02", modules=["C09", "C02a", "C01"], cfgs=ALL3, quick=2500, thorough=30000,
                 gens=[(["zip"], "mt", 0.3), (["zip"], "drain", 0.5), (["zip"], "exh", 1.0), (["zip"], "random", 1.0), (["zip"], "fair", 0.4), (["zip"], "stuck", 0.2),
                       (["zip"], "panic", 0.2), (["zip"], "big", 0.08), (["zip"], "waves", 0.1)],
                 assumptions=COMMON_ASSUME + ["zip over zero inputs is outside C09"]),
@@ -83,7 +83,7 @@ PROPS = {
                 gens=[(["chain"], "drain", 0.5), (["chain"], "exh", 1.0), (["chain"], "random", 1.0), (["chain"], "fair", 0.4), (["chain"], "stuck", 0.2),
                       (["chain"], "panic", 0.2), (["chain"], "big", 0.08)],
                 assumptions=COMMON_ASSUME),
-    "C17": dict(ktie=["Idx", "MergeV", "MergeA", "MergeVD", "MergeAD"], monitors=["C17", "NP", "LV"], monitor="C17", modules=["C17", "C01"], proj="FUN", cfgs=ALL3, quick=2500, thorough=30000,
+    "C17": dict(ktie=["Idx", "MergeV", "MergeA", "MergeVD", "MergeAD", "MergeT"], monitors=["C17", "NP", "LV"], monitor="C17", modules=["C17", "C01"], proj="FUN", cfgs=ALL3, quick=2500, thorough=30000,
                 gens=[(["merge"], "mt-fair", 0.5), (["merge"], "mt", 0.2), (["merge"], "drain", 0.3), (["merge"], "exh", 0.5), (["merge"], "fair", 1.0), (["merge"], "random", 0.5), (["merge"], "stuck", 0.2)],
                 assumptions=COMMON_ASSUME),
     "C11": dict(ktie=["Grp", "GrpPoll", "GrpD", "GrpPollDF"], monitors=["C11", "NP", "LV"], monitor="C11", modules=["C11", "C01g"], proj="GRP", cfgs=["std", "alloc", "stdv"], ks=True, quick=3000, thorough=40000,
